@@ -26,7 +26,7 @@ def cell_list(tier):
     cs = alph.cells("quick")
     n = 12 if tier == "quick" else 60
     step = max(1, len(cs) // n)
-    return cs[::step][:n]
+    return cs[::step][:n] + [list(c) for c in alph.SPECIAL_CELLS[:5]]
 
 
 def eps_list(tier):
@@ -119,6 +119,20 @@ def check_case(case):
                 r.violation(k2 + ":eps", "ubi_to_u_and_eps returns the strain eps", eps, e3, tol, dev, model=KF if is_model else None)
         if any(eps):
             r.nontrivial.add("%s:%s:%s" % (mname, cell, eps))
+        # history: the reference-cell argument is a buffer the caller reuses (first another cell, then this one, edited in place)
+        if eps in (eps_list(tier)[0], eps_list(tier)[5], eps_list(tier)[100]):
+            other = [cell[1] * 1.3, cell[2] * 0.9, cell[0] * 1.1, cell[4], cell[5], cell[3]]
+            for kind, out in alph.dirty_call(lambda e_, c_: mod.epsilon_to_b(e_, c_), (eps, other), (eps, cell), pos=1):
+                r.check("eps->B dirty", float(np.max(np.abs(np.asarray(out, float) - Bref))) / bn, tol, key + ":e2b:reused-%s-cell" % kind,
+                        "epsilon_to_b uses the CURRENT contents of a cell %s the caller reuses" % kind)
+            for kind, out in alph.dirty_call(lambda b_, c_: mod.b_to_epsilon(b_, c_), (Bref, other), (Bref, cell), pos=1):
+                r.check("B->eps dirty", float(np.max(np.abs(np.array(out, float) - e))), tol, key + ":b2e:reused-%s-cell" % kind,
+                        "b_to_epsilon uses the CURRENT contents of a cell %s the caller reuses" % kind)
+            ubi0 = f * np.linalg.inv(rots[0] @ Bref)
+            if mname == "laue":
+                for kind, out in alph.dirty_call(lambda u_, c_: mod.ubi_to_u_and_eps(u_, c_), (ubi0, other), (ubi0, cell), pos=1):
+                    r.check("ubi->eps dirty", float(np.max(np.abs(np.array(out[1], float) - e))), tol, key + ":ubi:reused-%s-cell" % kind,
+                            "ubi_to_u_and_eps uses the CURRENT contents of a cell %s the caller reuses" % kind)
         r.states += 4
         r.transitions += 6 + len(rots)
     return r
